@@ -785,8 +785,18 @@ def gen_writer_loops(root, report):
     fn = find_func(tree, 'save_omen_rules_to_disk')
     if fn is None:
         raise TranslateError('save_omen_rules_to_disk not found')
-    loops, ctors = [], []
+    loops, ctors, guards = [], [], []
     cur = {'name': None}
+
+    def guarded(loop):
+        """does the body of a writing loop decide, record by record, whether to write (an `if`, `continue`, `break` or `try` in it)?"""
+        for st in loop.body:
+            if isinstance(st, ast.For):
+                continue
+            for n in ast.walk(st):
+                if isinstance(n, (ast.If, ast.Continue, ast.Break, ast.Try, ast.IfExp)):
+                    return True
+        return False
 
     def writes(node):
         for n in ast.walk(node):
@@ -809,8 +819,10 @@ def gen_writer_loops(root, report):
                 if writes(st):
                     inner = [x for x in st.body if isinstance(x, ast.For) and writes(x)]
                     loops.append((cur['name'] or '?', ast.unparse(st.iter)))
+                    guards.append((cur['name'] or '?', 'guarded' if guarded(st) else 'every-record'))
                     for x in inner:
                         loops.append((cur['name'] or '?', ast.unparse(x.iter)))
+                        guards.append((cur['name'] or '?', 'guarded' if guarded(x) else 'every-record'))
                 else:
                     walk(st.body)
                 continue
@@ -838,6 +850,10 @@ def omenLoops : List (String × String) :=
   [{body}]
 
 def mostCommonContainers : List (String × String) := [{cbody}]
+
+/-- per writing loop (same order as `omenLoops`): `every-record` = the body writes one record per iteration with no `if` / `continue` /
+`break` / `try` in it, `guarded` = it decides per record -/
+def omenLoopBodies : List (String × String) := [{', '.join(f"({lean_str(a)}, {lean_str(b)})" for a, b in guards)}]
 
 end Pcfg.Generated.WriterLoops
 '''
